@@ -2,5 +2,5 @@ import CRProofs.XsdEnum
 namespace CR.C03
 set_option maxRecDepth 100000 in
 set_option maxHeartbeats 1000000 in
-theorem signs_ger_3 : (((gerSigns.drop 120).drop 60).all okNV) = true := by decide
+theorem signs_ger_8 : ((gerSigns.drop 210).all okNV) = true := by decide
 end CR.C03
